@@ -601,6 +601,15 @@ func checkC11(c *Check) {
 		"hash": "x := 1 # c", "dollar": "x := $y", "question": "x ? y", "tilde": "~x", "backslash": `x \ y`, "single-quote": "x := 'a'", "nul": "x\x00y", "high-byte": "x \x80 y",
 		"caret": "x ^ y", "lone-amp": "x & y", "unterminated-block-comment": "x /* never closed", "unterminated-comment-slash": "/*/", "unterminated-comment-slash-2": "x /*/ y", "unterminated-comment-star": "x /** y", "unterminated-comment-star-slash-apart": "x /* * / y", "utf8-identifier": "é := 1",
 	}
+	// characters outside ASCII are not part of the token grammar outside string literals and comments, whatever
+	// their bytes look like one by one (in Latin-1 many of those bytes are letters)
+	for _, r := range []rune("¡¢£¤¥¦§¨©ª«¬®¯°±²³´µ¶·¸¹º»¼½¾¿ÀÁÂÃÄÅÆÇÈÉÊËÌÍÎÏÐÑÒÓÔÕÖ×ØÙÚÛÜÝÞßàáâãäåæçèéêëìíîïðñòóôõö÷øùúûüýþÿĀłŒšžƒαβγλπωЖяאبあ日本€‐–—…™") {
+		ch := string(r)
+		errTexts[fmt.Sprintf("non-ascii/U+%04X/in-identifier", r)] = "men" + ch + " := 3"
+		errTexts[fmt.Sprintf("non-ascii/U+%04X/alone", r)] = "x := 1\n" + ch + "\n"
+		errTexts[fmt.Sprintf("non-ascii/U+%04X/after-number", r)] = "x := 1" + ch
+		errTexts[fmt.Sprintf("non-ascii/U+%04X/identifier-start", r)] = ch + "s := 250"
+	}
 	for k, txt := range errTexts {
 		c.Eval(txt, true)
 		_, err := lexer.Tokenize(txt)
